@@ -48,6 +48,25 @@ def to_yaml(structs) -> str:
     return "\n".join(parts) + "\n"
 
 
+def to_yaml2(structs, m: int) -> Dict[str, str]:
+    """two files: the first m structs live in types.yaml, which root.yaml imports; root.yaml declares an alias
+    AL<k>: S<k> for each of them (an alias of a struct needs the struct to come from an imported file: aliases are
+    processed before struct_defs within one file) and the remaining structs.  kind "a" = field typed by alias AL<ref>."""
+    def body(lo, hi):
+        parts = ["struct_defs:"]
+        for i in range(lo, hi):
+            st = structs[i]
+            if st[0] == "reuse":
+                parts.append(yaml_struct(f"S{i}", f"S{st[1]}"))
+            else:
+                fl = [(f"f{j}", ref if kind == "n" else (f"AL{ref}" if kind == "a" else f"S{ref}"), ln)
+                      for j, (kind, ref, ln) in enumerate(st[1])]
+                parts.append(yaml_struct(f"S{i}", fl))
+        return "\n".join(parts) + "\n"
+    root = "imports:\n  - sub/types.yaml\naliases:\n" + "".join(f"  AL{k}: S{k}\n" for k in range(m)) + body(m, len(structs))
+    return {"sub/types.yaml": body(0, m), "root.yaml": root}
+
+
 def to_coq(structs) -> str:
     ds = []
     for s in structs:
@@ -58,7 +77,7 @@ def to_coq(structs) -> str:
             for kind, ref, ln in s[1]:
                 l = -1 if ln is None else ln
                 ls = f"({l})" if l < 0 else str(l)
-                fs.append(f'N "{ref}" {ls}' if kind == "n" else f"R {ref} {ls}")
+                fs.append(f'N "{ref}" {ls}' if kind == "n" else f"R {ref} {ls}")    # kind "a" (alias of struct k) is struct k
             ds.append("SFields [" + "; ".join(fs) + "]")
     return "[" + "; ".join(ds) + "]"
 
@@ -212,6 +231,40 @@ def gen_cases(rng: random.Random, tier: str, names: Dict[int, List[str]]):
             structs.append(("fields", fl))
         ap = rng.random() < 0.7
         yield structs, ap, ap, "nested"
+    # fields typed by an ALIAS OF A STRUCT (declared in an imported file): aligned like the struct, not to its size
+    pair = ("fields", [("n", "double", None), ("n", "double", None)])            # size 16, alignment 8
+    triple = ("fields", [("n", "int32", None), ("n", "int32", None), ("n", "int32", None)])   # size 12, alignment 4
+    sixb = ("fields", [("n", "int16", None), ("n", "int16", None), ("n", "int16", None)])     # size 6, alignment 2
+    prefixes = [[], [("n", "int32", None)], [("n", "double", None)], [("n", "int32", None), ("n", "int32", None)],
+                [("n", "int16", None)], [("n", "double", None), ("n", "int32", None)], [("n", "char", 3)],
+                [("n", "int32", None), ("n", "int32", None), ("n", "int32", None)]]
+    for ap in (True, False):
+        for k in range(3):
+            for pre in prefixes:
+                for ln in (None, 2):
+                    for via in ("a", "r"):       # through the alias, and the same message using the struct directly
+                        yield [pair, triple, sixb, ("fields", list(pre) + [(via, k, ln)])], ap, False, "alias-of-struct:3"
+    for _ in range(300 if tier == "thorough" else 60):
+        m = rng.randint(1, 3)
+        structs = []
+        for i in range(m):
+            structs.append(("fields", [("n", nm(rng.choice([1, 2, 4, 8])), rng.choice([None, None, 2, 3]))
+                                       for _ in range(rng.randint(1, 4))]))
+        for i in range(m, m + rng.randint(1, 3)):
+            fl = []
+            for _ in range(rng.randint(1, 5)):
+                r = rng.random()
+                ln = rng.choice([None, None, 2, 3])
+                if r < 0.5:
+                    fl.append(("a", rng.randrange(m), ln))
+                elif r < 0.6 and i > m:
+                    fl.append(("r", rng.randrange(m, i), ln))
+                else:
+                    fl.append(("n", nm(rng.choice([1, 2, 4, 8])), ln))
+            structs.append(("fields", fl))
+        # the imported structs must themselves be accepted, otherwise nothing about the alias is observed
+        yield structs, True, False, f"alias-of-struct:{m}"
+        yield structs, False, False, f"alias-of-struct:{m}"
     # size limit boundary
     big = [
         [("n", "char", 65535)], [("n", "char", 65536)], [("n", "double", 8191), ("n", "char", 5)],
@@ -249,7 +302,9 @@ def run(chk: Check):
     gen = list(gen_cases(rng, chk.tier, names))
     cases = []
     for structs, ap, probe, tag in gen:
-        cases.append(dict(files={"root.yaml": to_yaml(structs)}, root="root.yaml", auto_pad=ap,
+        files = (to_yaml2(structs, int(tag.split(":")[1])) if tag.startswith("alias-of-struct")
+                 else {"root.yaml": to_yaml(structs)})
+        cases.append(dict(files=files, root="root.yaml", auto_pad=ap,
                           validate_alignment=True, import_coredefs=False,
                           emit=(["c"] if probe else []), probe_c=probe))
     results = run_impl(cases)
@@ -258,25 +313,26 @@ def run(chk: Check):
     dist: Dict[str, int] = {}
     nontrivial = set()
     nstructs = 0
-    for (structs, ap, probe, tag), res in zip(gen, results):
+    for (structs, ap, probe, tag), res, case in zip(gen, results, cases):
         if res["exc"] and res["exc"].startswith("HARNESS"):
             chk.broken_obligation("harness failure running the implementation", res["msg"])
             return
         ok, flat = impl_flat(res)
         coq_cases.append(f"((true, {coq_bool(ap)}, {to_coq(structs)}), ({coq_bool(ok)}, {coq_zlist(flat)}))")
-        dist[tag] = dist.get(tag, 0) + 1
+        dist[tag.split(":")[0]] = dist.get(tag.split(":")[0], 0) + 1
         dist["rejected" if not ok else "accepted"] = dist.get("rejected" if not ok else "accepted", 0) + 1
         nstructs += len(structs)
         for i, s in enumerate(structs):
             padded = ok and i < len(res["structs"]) and any(
                 re.fullmatch(r"padding_\d+_", f["name"]) for f in res["structs"][i]["fields"])
-            if padded or not ok or s[0] == "reuse" or any(k == "r" for k, _, _ in (s[1] if s[0] == "fields" else [])):
+            if padded or not ok or s[0] == "reuse" or any(k in ("r", "a") for k, _, _ in (s[1] if s[0] == "fields" else [])):
                 nontrivial.add((ap, json.dumps(s)))
         # spec oracle directly on the implementation's output
         v = oracle(structs, ap, res, limit, nat_size)
         if v:
             chk.spec_failure(key="layout:" + re.sub(r"S\d+|\d+", "#", v)[:80], desc=v,
-                             replay=dict(yaml=to_yaml(structs), auto_pad=ap, impl=dict(ok=res["ok"], exc=res["exc"], msg=res["msg"])))
+                             replay=dict(yaml=to_yaml(structs), files=case["files"], auto_pad=ap,
+                                         impl=dict(ok=res["ok"], exc=res["exc"], msg=res["msg"])))
     bad, log = FAM.eval_cases(HEADER, coq_cases, per_file=60)
     chk.cov["evaluations"] = nstructs
     chk.cov["traces_validated_against_impl"] = len(coq_cases) - len([b for b in bad if b >= 0])
@@ -308,7 +364,11 @@ def run(chk: Check):
 def replay(path: str) -> int:
     d = json.load(open(path))
     r = d["replay"]
-    res = run_impl([dict(files={"root.yaml": r["yaml"]}, root="root.yaml", auto_pad=r["auto_pad"],
-                         validate_alignment=True, import_coredefs=False, emit=["c"], probe_c=True)])[0]
+    two = len(r.get("files") or {}) > 1
+    res = run_impl([dict(files=r.get("files") or {"root.yaml": r["yaml"]}, root="root.yaml", auto_pad=r["auto_pad"],
+                         validate_alignment=True, import_coredefs=False, emit=[] if two else ["c"], probe_c=not two)])[0]
+    if two:
+        for k, v in r["files"].items():
+            print(f"--- {k} ---\n{v}")
     print(json.dumps(dict(ok=res["ok"], exc=res["exc"], msg=res["msg"], structs=res["structs"], probe=res["probe"]), indent=1))
     return 0
